@@ -40,14 +40,21 @@ func (c02AErrColl) Collect(_ context.Context, _ error) {}
 
 // c02ARig holds the real filter objects of one process.
 type c02ARig struct {
-	msgs   *dnsmsg.Constructor
-	caches *agdcache.DefaultManager
+	msgs *dnsmsg.Constructor
+	// cached: rule lists, blocked-service lists and safe-search filters get
+	// the real LRU result cache (history part); otherwise none.
+	cached bool
+	// caches[v] manages the result caches of the hash-prefix filters with
+	// replacement variant v; listCaches are the other result caches.
+	caches     [2]*agdcache.DefaultManager
+	listCaches []agdcache.Clearer
 
 	lists  map[string]*rulelist.Refreshable
 	immuts map[string]*rulelist.Immutable
 
 	hashStrg  [nHash]*hashprefix.Storage
-	hashFlt   [nHash]*hashprefix.Filter
+	// hashFlt[0] replace by an address, hashFlt[1] by a host name.
+	hashFlt   [2][nHash]*hashprefix.Filter
 	hashText  [nHash]string
 
 	ssGen, ssYT *safesearch.Filter
@@ -57,7 +64,10 @@ var (
 	c02ALogger = slog.New(slog.NewTextHandler(os.Stderr, &slog.HandlerOptions{Level: slog.Level(100)}))
 	c02AHashID = [nHash]internal.ID{internal.IDSafeBrowsing, internal.IDAdultBlocking, internal.IDNewRegDomains}
 	// Replacement addresses of the hash-prefix filters.
-	c02AHashRepl = [nHash]string{"192.0.2.66", "192.0.2.67", "192.0.2.68"}
+	c02AHashRepl = [2][nHash]string{
+		{"192.0.2.66", "192.0.2.67", "192.0.2.68"},
+		{"repl-dangerous.test", "repl-adult.test", "repl-newly.test"},
+	}
 )
 
 const (
@@ -66,9 +76,10 @@ const (
 	c02ASvcID             = "svc_x"
 )
 
-func c02ANewRig(dir string) (rig *c02ARig) {
+func c02ANewRig(dir string, cached bool) (rig *c02ARig) {
 	rig = &c02ARig{
-		caches: agdcache.NewDefaultManager(),
+		cached: cached,
+		caches: [2]*agdcache.DefaultManager{agdcache.NewDefaultManager(), agdcache.NewDefaultManager()},
 		lists:  map[string]*rulelist.Refreshable{},
 		immuts: map[string]*rulelist.Immutable{},
 	}
@@ -94,36 +105,38 @@ func c02ANewRig(dir string) (rig *c02ARig) {
 			vrt.Fatalf("hashprefix.NewStorage: %v", err)
 		}
 		file := filepath.Join(dir, "hp-"+string(c02AHashID[i]))
-		rig.hashFlt[i], err = hashprefix.NewFilter(&hashprefix.FilterConfig{
-			Logger:          c02ALogger,
-			Cloner:          rig.msgs.Cloner(),
-			CacheManager:    rig.caches,
-			Hashes:          rig.hashStrg[i],
-			URL:             &url.URL{Scheme: "file", Path: file},
-			ErrColl:         c02AErrColl{},
-			Metrics:         internal.EmptyMetrics{},
-			ID:              c02AHashID[i],
-			CachePath:       file,
-			ReplacementHost: c02AHashRepl[i],
-			Staleness:       time.Hour,
-			CacheTTL:        time.Hour,
-			RefreshTimeout:  time.Second,
-			CacheCount:      64,
-			MaxSize:         1 << 20,
-		})
-		if err != nil {
-			vrt.Fatalf("hashprefix.NewFilter: %v", err)
+		for v := 0; v < 2; v++ {
+			rig.hashFlt[v][i], err = hashprefix.NewFilter(&hashprefix.FilterConfig{
+				Logger:          c02ALogger,
+				Cloner:          rig.msgs.Cloner(),
+				CacheManager:    rig.caches[v],
+				Hashes:          rig.hashStrg[i],
+				URL:             &url.URL{Scheme: "file", Path: file},
+				ErrColl:         c02AErrColl{},
+				Metrics:         internal.EmptyMetrics{},
+				ID:              c02AHashID[i],
+				CachePath:       file,
+				ReplacementHost: c02AHashRepl[v][i],
+				Staleness:       time.Hour,
+				CacheTTL:        time.Hour,
+				RefreshTimeout:  time.Second,
+				CacheCount:      64,
+				MaxSize:         1 << 20,
+			})
+			if err != nil {
+				vrt.Fatalf("hashprefix.NewFilter: %v", err)
+			}
 		}
 	}
-	rig.ssGen = c02ANewSafeSearch(dir, internal.IDGeneralSafeSearch, c02SSGenText)
-	rig.ssYT = c02ANewSafeSearch(dir, internal.IDYoutubeSafeSearch, c02SSYTText)
+	rig.ssGen = c02ANewSafeSearch(dir, internal.IDGeneralSafeSearch, c02SSGenText, rig.newCache())
+	rig.ssYT = c02ANewSafeSearch(dir, internal.IDYoutubeSafeSearch, c02SSYTText, rig.newCache())
 
 	return rig
 }
 
 // c02ANewSafeSearch builds a real safe-search filter whose rules come from a
 // cache file (no network).
-func c02ANewSafeSearch(dir string, id internal.ID, text string) (f *safesearch.Filter) {
+func c02ANewSafeSearch(dir string, id internal.ID, text string, cache rulelist.ResultCache) (f *safesearch.Filter) {
 	file := filepath.Join(dir, string(id))
 	if err := os.WriteFile(file, []byte(text), 0o644); err != nil {
 		vrt.Fatalf("writing %s: %v", file, err)
@@ -139,7 +152,7 @@ func c02ANewSafeSearch(dir string, id internal.ID, text string) (f *safesearch.F
 			MaxSize:   1 << 20,
 		},
 		CacheTTL: time.Hour,
-	}, rulelist.ResultCacheEmpty{})
+	}, cache)
 	if err != nil {
 		vrt.Fatalf("safesearch.New: %v", err)
 	}
@@ -150,12 +163,24 @@ func c02ANewSafeSearch(dir string, id internal.ID, text string) (f *safesearch.F
 	return f
 }
 
+// newCache returns the result cache of a rule list of this rig: the real LRU
+// (as production configures it) for a caching rig, none otherwise.
+func (rig *c02ARig) newCache() (cache rulelist.ResultCache) {
+	if !rig.cached {
+		return rulelist.ResultCacheEmpty{}
+	}
+	cache = rulelist.NewResultCache(100, true)
+	rig.listCaches = append(rig.listCaches, cache)
+
+	return cache
+}
+
 func (rig *c02ARig) list(text string, id internal.ID) (rl *rulelist.Refreshable) {
 	k := string(id) + "\x00" + text
 	if rl = rig.lists[k]; rl != nil {
 		return rl
 	}
-	rl, err := rulelist.NewFromString(text, id, "", rulelist.ResultCacheEmpty{})
+	rl, err := rulelist.NewFromString(text, id, "", rig.newCache())
 	if err != nil {
 		vrt.Fatalf("rulelist.NewFromString(%q): %v", text, err)
 	}
@@ -169,7 +194,12 @@ func (rig *c02ARig) immutable(text string, id internal.ID, svc internal.BlockedS
 	if rl = rig.immuts[k]; rl != nil {
 		return rl
 	}
-	rl, err := rulelist.NewImmutable(text, id, svc, rulelist.ResultCacheEmpty{})
+	// Custom lists never have a result cache (custom.Filters).
+	var cache rulelist.ResultCache = rulelist.ResultCacheEmpty{}
+	if id != internal.IDCustom {
+		cache = rig.newCache()
+	}
+	rl, err := rulelist.NewImmutable(text, id, svc, cache)
 	if err != nil {
 		vrt.Fatalf("rulelist.NewImmutable(%q): %v", text, err)
 	}
@@ -181,7 +211,24 @@ func (rig *c02ARig) immutable(text string, id internal.ID, svc internal.BlockedS
 // filter assembles the real composite filter of cfg.  Rule lists are compiled
 // from text; their result caches are disabled and the hash-prefix result
 // caches are cleared, so no verdict of an earlier case is reused (C12).
-func (rig *c02ARig) filter(cfg c02Cfg) (f *composite.Filter) {
+func (rig *c02ARig) filter(cfg c02Cfg) (f *composite.Filter) { return rig.filterRepl(cfg, 0, true) }
+
+// clearCaches empties every result cache of the rig.
+func (rig *c02ARig) clearCaches() {
+	for _, m := range rig.caches {
+		for _, id := range m.IDs() {
+			m.ClearByID(id)
+		}
+	}
+	for _, c := range rig.listCaches {
+		c.Clear()
+	}
+}
+
+// filterRepl is filter with the replacement variant of the hash-prefix
+// filters (0 address, 1 host name); with clear == false the result caches
+// keep what earlier questions left in them.
+func (rig *c02ARig) filterRepl(cfg c02Cfg, repl int, clear bool) (f *composite.Filter) {
 	cc := &composite.Config{}
 	text := func(s int, ident string) string {
 		lines := c02ListLines(cfg.Req[s], cfg.Resp[s], cfg.RespTarget, ident)
@@ -220,11 +267,11 @@ func (rig *c02ARig) filter(cfg c02Cfg) (f *composite.Filter) {
 		}
 		switch i {
 		case hDangerous:
-			cc.SafeBrowsing = rig.hashFlt[i]
+			cc.SafeBrowsing = rig.hashFlt[repl][i]
 		case hAdult:
-			cc.AdultBlocking = rig.hashFlt[i]
+			cc.AdultBlocking = rig.hashFlt[repl][i]
 		case hNewly:
-			cc.NewRegisteredDomains = rig.hashFlt[i]
+			cc.NewRegisteredDomains = rig.hashFlt[repl][i]
 		}
 	}
 	if cfg.SS&ssGen != 0 {
@@ -233,8 +280,8 @@ func (rig *c02ARig) filter(cfg c02Cfg) (f *composite.Filter) {
 	if cfg.SS&ssYT != 0 {
 		cc.YouTubeSafeSearch = rig.ssYT
 	}
-	for _, id := range rig.caches.IDs() {
-		rig.caches.ClearByID(id)
+	if clear {
+		rig.clearCaches()
 	}
 
 	return composite.New(cc)
@@ -417,7 +464,7 @@ func c02AMsg(res internal.Result) string {
 
 func TestVerifC02Composite(t *testing.T) {
 	r := vrt.Start("C02")
-	rig := c02ANewRig(t.TempDir())
+	rig := c02ANewRig(t.TempDir(), false)
 	thorough := r.Thorough()
 
 	// Request-side kinds per slot.
@@ -478,6 +525,9 @@ func TestVerifC02Composite(t *testing.T) {
 			})
 		})
 	}, run)
+
+	// Part 3: histories of questions on one filter with all result caches on.
+	c02HPart(r, rig, c02ANewRig(t.TempDir(), true), kinds)
 
 	r.Finish()
 	os.Exit(0)
